@@ -108,10 +108,11 @@ class Session:
         self.exit = None     # what main_func would return
         self.runs = {}       # bench name -> final state dict
         self.exc = None
+        self.run_objs = []
 
 
 def run_session(raw, script, data_file, argv=(), scheduler="batch", build_script=None, exp_name=None,
-                run_filter=None, seed=None, validate=False, cli_reporter=None):
+                run_filter=None, seed=None, validate=False, cli_reporter=None, start_key=None, on_runs=None):
     """script(bench, nth_start, inv) -> (rc, output) | raises OSError
        build_script(text, cwd) -> (rc, stdout, stderr) | raises OSError"""
     ses = Session()
@@ -128,8 +129,11 @@ def run_session(raw, script, data_file, argv=(), scheduler="batch", build_script
             return build_script(text, cwd)
         if _pre_call is not None:
             _pre_call(args, env, cwd=cwd, timeout=timeout)
-        parts = args.split()
-        bench, inv = parts[-2], parts[-1]
+        if start_key is not None:
+            bench, inv = start_key(args)
+        else:
+            parts = args.split()
+            bench, inv = parts[-2], parts[-1]
         k = nth.get(bench, 0)
         nth[bench] = k + 1
         ses.starts.append((bench, int(inv)))
@@ -151,7 +155,10 @@ def run_session(raw, script, data_file, argv=(), scheduler="batch", build_script
             ds = DataStore(ui)
             cnf = Configurator(raw, ds, ui, opts, cli_reporter, exp_name, data_file, None, run_filter, opts.machine)
             runs = cnf.get_runs()
+            ses.run_objs = runs
             ds.load_data(runs, opts.do_rerun)
+            if on_runs is not None:
+                on_runs(runs)
             ex = Executor(runs, cnf.do_builds, ui, opts.include_faulty, False, SCHEDULERS[scheduler],
                           None, False, False, False, opts.execution_plan, None)
             ses.result = ex.execute()
